@@ -158,12 +158,28 @@ func (w *World) Derive(l, kind int) {
 	}
 	w.guard("With", func() {
 		f := zap.Int("d", len(w.Loggers))
+		fs := []zapcore.Field{f}
+		switch (kind / 2) % 8 { // the kinds of field lists callers derive loggers with
+		case 1:
+			fs = []zapcore.Field{zap.Error(nil)} // zap turns a nil error into a no-op (skip) field
+		case 2:
+			fs = []zapcore.Field{zap.Skip()}
+		case 3:
+			fs = []zapcore.Field{f, zap.String("s", "x"), zap.Bool("b", true)}
+		case 4:
+			fs = []zapcore.Field{zap.Namespace("ns"), f}
+		case 5:
+			fs = []zapcore.Field{}
+		}
+		if (kind/2)%8 != 0 {
+			w.Stats.Inc("probe.derived-with-unusual-fields")
+		}
 		if kind%2 == 0 {
-			c := w.Cores[l].With([]zapcore.Field{f})
+			c := w.Cores[l].With(fs)
 			w.Cores = append(w.Cores, c)
 			w.Loggers = append(w.Loggers, zap.New(c))
 		} else {
-			lg := w.Loggers[l].With(f)
+			lg := w.Loggers[l].With(fs...)
 			w.Cores = append(w.Cores, lg.Core())
 			w.Loggers = append(w.Loggers, lg)
 		}
@@ -464,7 +480,7 @@ func Gen(r *sim.Rand, tier string) sim.Script {
 		}
 		switch r.Weighted([]int{5, 14, 3, 4}) {
 		case 0:
-			s.Ops = append(s.Ops, Op{K: "derive", L: r.Intn(nl), N: r.Intn(2)})
+			s.Ops = append(s.Ops, Op{K: "derive", L: r.Intn(nl), N: r.Intn(2) + 2*[]int{0, 0, 0, 1, 2, 3, 4, 5}[r.Intn(8)]})
 			nl++
 		case 1:
 			s.Ops = append(s.Ops, Op{K: "write", L: r.Intn(nl)})
@@ -487,7 +503,7 @@ func GenSched(r *sim.Rand, tier string) sim.Script {
 	nl := 1
 	for i := r.Intn(5); i > 0; i-- {
 		if r.Chance(1, 2) {
-			s.Ops = append(s.Ops, Op{K: "derive", L: r.Intn(nl), N: r.Intn(2)})
+			s.Ops = append(s.Ops, Op{K: "derive", L: r.Intn(nl), N: r.Intn(2) + 2*[]int{0, 0, 0, 1, 2, 3, 4, 5}[r.Intn(8)]})
 			nl++
 		} else {
 			s.Ops = append(s.Ops, Op{K: "write", L: r.Intn(nl)})
